@@ -79,6 +79,10 @@ where
     pub async fn run(mut self) -> Result<(), ConnectionError<T::Error>> {
         let id = self.handle.take().unwrap().into_id();
 
+        // Set when the broker no longer accepts messages. It has then shut down and whatever it
+        // sent before (notably `Shutdown`) is still queued and must be delivered to the client.
+        let mut broker_gone = false;
+
         loop {
             debug_assert!(self.recv.is_some());
             debug_assert!(self.transport.is_some());
@@ -112,7 +116,11 @@ where
                     break self.client_shutdown(id).await;
                 }
 
-                Selected::Transport(Ok(msg)) => self.send_broker_msg(id.clone(), msg).await?,
+                Selected::Transport(Ok(msg)) => {
+                    if !broker_gone && self.send_broker_msg(id.clone(), msg).await.is_err() {
+                        broker_gone = true;
+                    }
+                }
 
                 Selected::TransportFlushed(Ok(())) => self.flush_transport = false,
 
